@@ -198,6 +198,15 @@ func seamDial(s *staged) {
 			fatalf("anchor not found: call of %s inside (*Dialer).dial", k)
 		}
 	}
+	// dialNDP opens its socket through verifNDPListen and returns it as the interface
+	// verifListenConn (what dialNDP and its callers need from *ndp.Conn), so that the
+	// steps between "socket opened" and "connection handed to dial()" run over a scripted
+	// socket (C11 `listen`). A dialNDP of another shape bypasses the seam (harness reports it).
+	if fd := findFunc(s.file, "", "dialNDP"); fd != nil && fd.Body != nil && fd.Type.Results != nil && len(fd.Type.Results.List) == 3 {
+		if f := rewriteCalls(fd.Body, "ndp", map[string]string{"Listen": "verifNDPListen"}); f["Listen"] {
+			fd.Type.Results.List[0].Type = ast.NewIdent("verifListenConn")
+		}
+	}
 }
 
 // seamConn: inside lookupInterface the call net.InterfaceByName goes through
@@ -279,11 +288,27 @@ func seamSysctl() *staged {
 // (default: the original), so that the real request/close/error plumbing of the only
 // function that talks to the netlink socket runs over scripted answers.
 func seamRtnl(s *staged) {
+	// LoopbackRoutes lists the interfaces through verifInterfaces (C15 `rtnl`).
+	if fd := findFunc(s.file, "addresser", "LoopbackRoutes"); fd != nil && fd.Body != nil {
+		rewriteCalls(fd.Body, "net", map[string]string{"Interfaces": "verifInterfaces"})
+	}
 	fd := findFunc(s.file, "", "rtnlExecute")
 	if fd == nil || fd.Body == nil {
 		return // the harness reports the bypassed seam
 	}
 	rewriteCalls(fd.Body, "rtnetlink", map[string]string{"Dial": "verifRtnlDial"})
+}
+
+// seamWatch: inside osWatch (internal/netstate/watcher_linux.go) rtnetlink.Dial goes
+// through verifWatchDial (default: the original), so that the real receive loop, its
+// cancellation and its error handling run over a scripted netlink connection (C19
+// `oswatch`).
+func seamWatch() *staged {
+	s := load("internal/netstate/watcher_linux.go")
+	if fd := findFunc(s.file, "", "osWatch"); fd != nil && fd.Body != nil {
+		rewriteCalls(fd.Body, "rtnetlink", map[string]string{"Dial": "verifWatchDial"})
+	}
+	return s
 }
 
 func main() {
@@ -298,6 +323,7 @@ func main() {
 	addr := seamAddresser()
 	seamRtnl(addr)
 	seamSysctl().write()
+	seamWatch().write()
 	dialer := load("internal/system/dialer.go")
 	seamDial(dialer)
 	seamConn().write()
